@@ -11,24 +11,99 @@ TB = ("Trusted base: CrossHair's models of str/list/dict/int and of `re` on the 
       "catalogue members; every refutation and every reachability witness is replayed on the unmodified code in a plain interpreter. "
       "Bounds are repeated in the evidence file.")
 
+def e1(ref, technique, text, note_extra=""):
+    return dict(ref=ref, technique=technique, text=E1 + text, note=TB + (" " + note_extra if note_extra else ""))
+
+
 CHECKS = {
-    "C01": dict(ref="3/C01", technique="CrossHair symbolic execution, differential against an independent specification interpreter (refmodel)",
-                text=E1 + "verdict of DraftNValidator(schema).is_valid(x) compared on every feasible path with an independent specification "
-                "interpreter that is gated on the official test suite; all keywords alone x instance kinds, sibling groups, nested applicators, keyword pairs.",
-                note=TB + " Strings <= 2 code points, containers <= 2 entries, nesting <= 2, unbounded integers; floats, $ref, format are other properties."),
+    "C01": e1("3/C01", "CrossHair symbolic execution, differential against an independent specification interpreter (refmodel)",
+              "verdict of DraftNValidator(schema).is_valid(x) compared on every feasible path with an independent specification "
+              "interpreter that is gated on the official test suite; all keywords alone x instance kinds, sibling groups, nested applicators, keyword pairs.",
+              "Strings <= 2 code points, containers <= 2 entries, nesting <= 2, unbounded integers; floats, $ref, format are other properties."),
+    "C02": e1("3/C02", "CrossHair symbolic execution, implementation against itself on the reference-free twin built by construction",
+              "a reference-using schema and the twin with the designated schema written in place (built by the harness with its own pointer/URI "
+              "encoder; decoy definitions at every location a wrong decoding or base would reach) must give the same verdict and the same "
+              "multiset of (instance path, keyword); hostile names, all placements, root/remote/handler documents, nested ids, chains, recursion.",
+              "Reference strings, names, ids and documents are a concrete catalogue (native hashing); instance and target leaves are symbolic. "
+              "urljoin is trusted. Embedded-id targets (issue 371) excluded as the property says."),
+    "C03": e1("3/C03", "CrossHair symbolic execution with the real check_schema as symbolic precondition; numkern SMT queries for numeric raise-freedom",
+              "candidate schemas {K: v} with symbolic keyword values of every JSON kind (and sibling pairs) pass through the real check_schema "
+              "executed symbolically; on accepting paths every entry point runs on a symbolic instance and may raise only the documented "
+              "exceptions; E2 queries decide that no finite operand makes a numeric keyword raise.",
+              "$ref, id, regex, format and Draft 3 type names are catalogue members chosen by symbolic index (the property's own preconditions)."),
+    "C04": e1("3/C04", "CrossHair symbolic execution of the four entry points on the same symbolic input",
+              "is_valid, iter_errors, validate() and jsonschema.validate compared on one symbolic (schema leaves, instance) per path, error identity "
+              "by (keyword, message placeholder, paths, context recursively); invalid schemas: SchemaError fields equal the first metaschema "
+              "violation and a poisoned instance is never touched.", "best_match's choice is constrained only as the property states."),
+    "C05": e1("3/C05", "CrossHair symbolic execution: keyword-restriction self-comparison plus violation counts of an independent interpreter",
+              "errors of a schema object = multiset union over its keywords of the errors of the schema restricted to that keyword and the "
+              "siblings it consults; and the multiset of (keyword, path) equals an independent interpreter's list of violations.",
+              "Message text compared as placeholders."),
+    "C06": e1("3/C06", "CrossHair symbolic execution with an independent path/pointer navigator",
+              "every error in the context closure: absolute path reaches error.instance; keyword/value/subschema consistent; absolute schema "
+              "path (hopping $ref with the harness's resolver) reaches the value; parent arithmetic; json_path rendering.",
+              "Documented exceptions (Draft 3 required, propertyNames, false schema) are checked in their stated form."),
+    "C07": e1("3/C07", "CrossHair symbolic execution of operation histories on one validator (inductive step + short histories)",
+              "symbolic operation codes, instances over every reference kind, iterator abandonment, handler fault schedule; after each operation "
+              "the scope stack is [base] and instance/schema/store documents are unchanged; the next result equals a fresh validator's.",
+              "Histories <= 2 operations + probe (3 thorough); re-entrancy excluded as the property says."),
+    "C08": e1("3/C08", "CrossHair symbolic execution against a recursive definition of JSON equality",
+              "const / enum / uniqueItems on concrete shapes (depth <= 3) with symbolic leaves and on symbolic scalars/arrays, each tied to the "
+              "same 20-line oracle (so the three keywords agree); duplicates adjacent or separated; three-element arrays.",
+              "Floats are outside E1 (int==float makes CrossHair enumerate integers); leaves are bool|int or null|bool|int|str."),
     "C09": dict(ref="3/C09, 2.2", category="other",
                 technique="AST-to-SMT translation of the numeric keyword functions (numkern), cvc5/z3 queries against an exact field-level specification; CrossHair for unbounded ints",
                 text="SMT queries over an encoding regenerated from the current source of minimum/maximum/exclusive*/multipleOf/divisibleBy in all four "
                 "draft tables: code verdict == exact arithmetic and no exception, for every operand of each kind pair (int64, |i|>=2**1024, every finite binary64); "
                 "plus CrossHair conditions on unbounded integers.",
                 note="Trusted: numkern's model of Python's int/float operators (validated on every run against the interpreter on ~13k concrete operand pairs), "
-                "Fraction modelled as exact. Outside the bound: mixed int/float with 2**63 <= |i| < 2**1024. unknown/timeout is reported as inconclusive."),
-    "C14": dict(ref="3/C14", technique="CrossHair symbolic execution of RefResolver.resolve_fragment against an independent RFC 6901 decoder",
-                text=E1 + "symbolic documents with symbolic keys, symbolic raw fragments compared with an independent character-level RFC 6901 decoder, "
-                "key round-trips through the harness's own encoder, array-index tokens from a hostile catalogue.",
-                note=TB + " Keys <= 2 code points (3 thorough), raw fragments <= 5 (6) characters, '%' only over the alphabet {% ~ / 0 1 2 5 a}."),
+                "Fraction modelled as exact. Outside the bound: mixed int/float with 2**63 <= |i| < 2**1024; the verdict of float % int (fp.rem: unknown in both solvers). unknown/timeout is inconclusive."),
+    "C10": e1("3/C10", "CrossHair symbolic execution, implementation against itself with/without the foreign keyword",
+              "a keyword outside the draft's vocabulary (from a specification table in the harness) with a symbolic value is inserted at the "
+              "root or a subschema position; error signatures must not change; any keyword next to $ref; id vs $id per draft.",
+              "Keyword names are concrete (VALIDATORS.get hashes them)."),
+    "C11": e1("3/C11", "CrossHair symbolic execution, differential against refmodel applied to the bundled metaschema file",
+              "check_schema on {K: v} for every property name of the bundled metaschema (read at run time) and every value kind, at the root "
+              "and in subschema positions, non-object candidates, the metaschema's own dependencies; accepted <=> the independent evaluator "
+              "accepts; only SchemaError is raised; each metaschema accepts itself."),
+    "C12": e1("3/C12", "CrossHair symbolic execution with symbolic checker behaviour",
+              "custom check functions whose behaviour is a symbolic selector; every registered built-in checker on symbolic non-string instances; "
+              "no checker = schema without format; formats=subset; the draft checker objects."),
+    "C13": e1("3/C13", "CrossHair symbolic execution of ipaddress-based checkers against a written grammar; contract stubs for C-implemented libraries",
+              "ipv4/ip-address on every string up to the length bound (split by length and dot mask) against a 12-line grammar; email; for date, "
+              "time, regex, ipv6, idn-hostname only the wrapper layer under nondeterministic contract stubs.",
+              "PARTIAL: the accepted languages of date/time/regex/ipv6/idn-hostname and undocumented library exceptions cannot be decided by this engine (C code)."),
+    "C14": e1("3/C14", "CrossHair symbolic execution of RefResolver.resolve_fragment against an independent RFC 6901 decoder",
+              "symbolic documents with symbolic keys, symbolic raw fragments compared with an independent character-level decoder, key "
+              "round-trips through the harness's own encoder, array-index tokens from a hostile catalogue.",
+              "Keys <= 2 code points (3 thorough), raw fragments <= 4 (6) characters, '%' only over the alphabet {% ~ / 0 1 2 5 a}."),
+    "C15": e1("3/C15", "CrossHair symbolic execution of retrieval histories with counting stubs",
+              "symbolic sequences of validations/direct resolutions, cache_remote and handler fault schedule; verdicts equal the oracle in every "
+              "cache configuration; at most one successful fetch per document with caching on; store unchanged with caching off; handler "
+              "failures surface as RefResolutionError; metaschema and store references never fetch; urlopen stub never reached."),
+    "C16": e1("3/C16", "CrossHair symbolic execution of derivation histories with behavioural probes",
+              "symbolic sequences of extend/create/redefine/remove/types=/checks/cls_checks/formats=; after every step every earlier object "
+              "answers its recorded probes unchanged; extend() without changes equals its parent (incl. where it looks for ids)."),
+    "C17": e1("3/C17", "CrossHair symbolic execution of ErrorTree construction under permuted arrival orders",
+              "iter_errors on symbolic instances, the error list permuted by Lehmer codes, then the tree is compared with what the list implies "
+              "(nodes, children, membership, totals, empty subtrees).",
+              "Object keys range over a concrete catalogue because ErrorTree hashes path elements natively. Known finding F9 excluded by its input class."),
+    "C18": e1("3/C18", "CrossHair symbolic execution of iterator interleavings with symbolic schedules",
+              "a symbolic schedule interleaves next() on error iterators of validators built from schema pairs colliding on every shareable "
+              "cache key; each yields exactly what it yields alone.",
+              "PARTIAL: preemptive threads are outside (single-threaded engine)."),
+    "C19": e1("3/C19", "CrossHair symbolic execution of cli.run over a symbolic file system",
+              "open()/stdin replaced by fakes driven by symbolic per-file states; exit status, diagnostics count, success headers compared with "
+              "the state vector and the library's error count; plain/pretty/custom format/explicit validator/base-uri/stdin.",
+              "The state vectors are small discrete values: close to exhaustive enumeration up to the length bound. OS process boundary outside."),
+    "C20": e1("3/C20", "CrossHair symbolic execution of validator_for / validate / cli over $schema spellings and registration histories",
+              "spellings generated from the live registry; disagreement templates with symbolic leaves/instances; behaviour after dispatch equals "
+              "the selected class; explicit class wins; later registrations selectable without disturbing earlier ones; CLI selects the same class.",
+              "$schema strings are concrete (URIDict hashes them)."),
 }
 
+# properties whose quick check has been run green on the unchanged tree (others are listed as not yet claimed)
+READY = {"C01", "C05", "C08", "C09", "C12", "C13", "C14", "C15", "C16", "C17", "C19", "C20"}
 NOT_YET = "check not built yet in this round (design in DESIGN.md section 3); no claim is made"
 
 NA = {}
@@ -42,7 +117,7 @@ def main():
         pid = p["id"]
         c = CHECKS.get(pid)
         have = os.path.exists(os.path.join(ROOT, "vf", "props", pid.lower() + ".py"))
-        if c and have:
+        if c and have and pid in READY:
             checks.append({
                 "property_id": pid,
                 "quick_cmd": "./check %s --tier quick" % pid,
@@ -70,7 +145,7 @@ def main():
             {"name": "E1", "path": "vf/chx.py", "kind_free_text": "CrossHair 0.0.110 + z3 5.1.0: symbolic execution of /repo/jsonschema byte-code, per-path SMT",
              "serves_properties": [c["property_id"] for c in checks]},
             {"name": "E2", "path": "vf/numkern.py", "kind_free_text": "numkern: Python AST -> SMT-LIB (QF_BVFP/LIA), cvc5 1.0.3 binary + z3",
-             "serves_properties": [c["property_id"] for c in checks if c["property_id"] in ("C09", "C03", "C08")]},
+             "serves_properties": [c["property_id"] for c in checks if c["property_id"] in ("C09", "C03")]},
         ],
         "checks": checks,
         "not_applicable": na,
